@@ -22,6 +22,28 @@ Theorem C12_history_holds :
 Proof. exact history_P. Qed.
 Print Assumptions C12_history_holds.
 
+(** The same over histories in which the Votes store PERSISTS between steps (an EndBlocker step carries
+    only the votes submitted since the previous step; the store is what was put before and not yet
+    cleared): every step is judged against the votes submitted since the last vote-period end — misses,
+    reward weights and payouts of a period never depend on votes of an earlier period — and the store is
+    empty after every vote-period end, with or without quorum. *)
+Theorem C12_history_with_vote_store_holds :
+  forall q ops s e0, inv (h12_os s) -> Forall wf_op ops ->
+  P_history12 q (obs_of (h12_os s) e0) (h12_store s) (run_obs12 true q s ops).
+Proof. exact history12_P. Qed.
+Print Assumptions C12_history_with_vote_store_holds.
+
+Theorem C12_period_end_clears_vote_store :
+  forall fx q s st svs h s' e,
+  hstep12 fx q s (OEnd st svs h) = HOk s' e -> is_period_last h (p_vote_period (op_base q)) = true -> h12_store s' = [].
+Proof. exact period_end_clears_store. Qed.
+Print Assumptions C12_period_end_clears_vote_store.
+
+Theorem C12_history_checker_with_vote_store_sound :
+  forall q l prev cast, Pb_history12 q prev cast l = true -> P_history12 q prev cast l.
+Proof. exact Pb_history12_sound. Qed.
+Print Assumptions C12_history_checker_with_vote_store_sound.
+
 Theorem C12_empty_state_satisfies_invariant : inv (mkOS [] [] []).
 Proof. exact inv_empty. Qed.
 Print Assumptions C12_empty_state_satisfies_invariant.
